@@ -324,7 +324,7 @@ def _swpoly_one(c):
     exp = np.stack([ev(l[f]) for l in c['layers']])
     scale = 1.0 + float(np.abs(exp).max())
     err = np.where(real, np.abs(tot - exp), 0.0)
-    if not np.all(np.isfinite(tot)) or err.max() > 2e-11 * scale:
+    if not np.all(np.isfinite(tot)) or err.max() > 2e-10 * scale:
       j = np.unravel_index(np.argmax(err), err.shape)
       bad(f'steady:swpoly:{f}', f'total {f} tendency at layer {int(j[0])}, node (lon {lon[j[1], j[2]]:.4f}, sin(lat) {sinlat[j[1], j[2]]:.4f}): '
           f'code {tot[j]!r}, continuous equations {exp[j]!r} (max |field| {scale - 1:.3g})')
@@ -382,11 +382,15 @@ def _pepoly_one(c):
          'tracer': np.stack([ev(l['tracer']) for l in lv])}
   got = {'vorticity': tot.vorticity, 'divergence': tot.divergence, 'temperature_variation': tot.temperature_variation,
          'log_surface_pressure': tot.log_surface_pressure, 'tracer': tot.tracers['q']}
+  worst = [0.0]
+
   def compare(tag, got, exp):
     for f in exp:
       scale = 1.0 + float(np.abs(exp[f]).max())
       err = np.where(real, np.abs(got[f] - exp[f]), 0.0)
-      if not np.all(np.isfinite(got[f])) or err.max() > 5e-11 * scale:
+      if np.all(np.isfinite(err)):
+        worst[0] = max(worst[0], float(err.max()) / scale)
+      if not np.all(np.isfinite(got[f])) or err.max() > 2e-10 * scale:
         j = np.unravel_index(np.argmax(err), err.shape)
         bad(f'steady:pepoly:{tag}{f}', f'total {f} tendency at level {int(j[0])}, node (lon {lon[j[1], j[2]]:.4f}, sin(lat) {sinlat[j[1], j[2]]:.4f}): '
             f'code {got[f][j]!r}, continuous equations {exp[f][j]!r} (max |field| {scale - 1:.3g}, max error {err.max():.3e})')
@@ -407,6 +411,7 @@ def _pepoly_one(c):
     expm = {'vorticity': np.stack([ev(l['moist_vorticity']) for l in lv]), 'divergence': np.stack([aev(l['moist_divergence']) for l in lv]),
             'log_surface_pressure': exp['log_surface_pressure'], 'tracer': exp['tracer']}
     compare('moist:', gotm, expm)
+  out.append({'sig': '__stat__', 'case': None, 'detail': '', 'worst_rel': worst[0]})
   return out
 
 
@@ -508,8 +513,13 @@ def run(ctx):
   pgrids = [dict(M=10), dict(M=10, impl='fast', mult=4), dict(M=11, offset=0.2)]
   for i, c in enumerate(pe_cases):
     c['grid'] = pgrids[(i + ctx.seed) % len(pgrids)]
+  worst = 0.0
   for m in common.parallel_map('c05', 'replay_pepoly', pe_cases, tag='pep', outdir=os.path.join(ctx.out, 'par')):
-    ctx.record('pepoly', m)
+    if m['sig'] == '__stat__':
+      worst = max(worst, m['worst_rel'])
+    else:
+      ctx.record('pepoly', m)
+  ctx.notes['primitive_polynomial_worst_relative_error'] = worst      # budget 2e-10
   ctx.replayed += len(pe_cases)
   ctx.comparisons += 5 * len(pe_cases)
   for c in pe_cases:
